@@ -166,15 +166,15 @@ Section Event.
   Qed.
 
   (** ** the renderer's order: the waiters of a chunk see the clocks AFTER that chunk's advance *)
-  Lemma chunk_order (fuel : nat) (y y' : sys Q) (frames : Z) :
-    sys_chunk powf fuel y frames = Ok y' ->
+  Lemma chunk_order (y y' : sys Q) (frames : Z) :
+    sys_chunk powf y frames = Ok y' ->
     let d := nmul (y_dt y) (nofZ frames) in
-    clocks_update powf fuel (y_slots y) d = Ok (y_slots y') /\
+    clocks_update powf (y_slots y) d = Ok (y_slots y') /\
     waiters_update (y_waiters y) d (info_of (y_slots y')) (y_frames y) = Ok (y_waiters y') /\
     y_frames y' = (y_frames y + frames)%Z.
   Proof.
     unfold sys_chunk. intro H. cbn zeta.
-    destruct (clocks_update powf fuel (y_slots y) (nmul (y_dt y) (nofZ frames))) as [slots| |]; cbn [obind] in H; try discriminate.
+    destruct (clocks_update powf (y_slots y) (nmul (y_dt y) (nofZ frames))) as [slots| |]; cbn [obind] in H; try discriminate.
     destruct (waiters_update (y_waiters y) (nmul (y_dt y) (nofZ frames)) (info_of slots) (y_frames y)) as [ws| |] eqn:W;
       cbn [obind] in H; try discriminate.
     inversion H. subst y'. cbn [y_slots y_waiters y_frames]. repeat split. exact W.
@@ -196,12 +196,12 @@ Section Event.
 
   (** ** stop: the handle reads (0, 0.0) at once; after the next [on_start_processing] the clock is
       [NotStarted], not ticking, and reads (0, 0.0) *)
-  Lemma stop_resets_lemma (fuel : nat) (y : sys Q) (c : nat) (s : slot Q) :
+  Lemma stop_resets_lemma (y : sys Q) (c : nat) (s : slot Q) :
     nth_error (y_slots y) c = Some s -> sl_life s = Live -> sl_marked s = false ->
     exists y1 y2 s2,
-      sys_step powf fuel y (OStop c) = Ok y1 /\
+      sys_step powf y (OStop c) = Ok y1 /\
       handle_view y1 c = Some (s_ticking (sl_shared s), 0%Z, 0) /\
-      sys_step powf fuel y1 OStartProcessing = Ok y2 /\
+      sys_step powf y1 OStartProcessing = Ok y2 /\
       handle_view y2 c = Some (false, 0%Z, 0) /\
       nth_error (y_slots y2) c = Some s2 /\
       c_state (sl_clock s2) = NotStarted /\ c_ticking (sl_clock s2) = false.
@@ -239,6 +239,6 @@ Qed.
     T_k = (k+1)/4, so it begins in chunk 3 = device frame 48 *)
 Example event_example :
   let ops := [OAddClock (TicksPerSecond 8); OStart 0; OWait WSound (ClockT 0 1 0); OStartProcessing; OProcess 200] in
-  exists y, sys_run (fun _ _ => 0) 100 (sys_new 512 16) ops = Ok y /\
+  exists y, sys_run (fun _ _ => 0) (sys_new 512 16) ops = Ok y /\
             map (@w_state Q) (y_waiters y) = [WBegun 48].
 Proof. eexists. split; vm_compute; reflexivity. Qed.
